@@ -1,4 +1,183 @@
-def run(chk):
-    pass
+"""C10, second half: HERMTOEP, TOEPLITZ, CHOLESKY against Toeplitz.tla, GenToeplitz.tla, Cholesky.tla."""
+import numpy as np
+
+from .. import core, material as M, tlc
+from ..kern_util import call_guard, cmp_vec
+
+
+def _arr(seq, cplx, force_complex=False):
+    if cplx or force_complex:
+        return np.array(M.cq_seq(seq), dtype=complex)
+    return np.array(M.real_list(seq), dtype=float)
+
+
+# ---------------------------------------------------------------- HERMTOEP
+def replay_hermtoep(chk, st, cplx):
+    from spectrum.toeplitz import HERMTOEP
+    if st['status'] != 'pd' or M.has_ovf(st['x']) or len(st['A']) == 0:
+        chk.skip('hermtoep-' + st['status'] if len(st['A']) else 'hermtoep-order0')
+        return
+    mode = 'complex' if cplx else 'real'
+    r, z = st['r'], st['z']
+    expx = np.array(M.cq_seq(st['x']), dtype=complex)
+    for ename, fc in (('native', False), ('complex-dtype', True)):
+        if cplx and fc:
+            continue
+        T0 = float(M.rat(r[0][0]))
+        T = _arr(r[1:], cplx, fc)
+        Z = _arr(z, cplx, fc)
+        case = {'kernel': 'HERMTOEP', 'T0': T0, 'T': T, 'Z': Z, 'expect_x': expx, 'complex': cplx}
+        ok, res = call_guard(HERMTOEP, T0, T, Z)
+        chk.evaluations += 1
+        if not ok:
+            chk.violation('HERMTOEP:raise-on-pd:%s:%s' % (mode, ename),
+                          'HERMTOEP rejects a positive-definite system: %r' % (res,), case)
+            continue
+        bad = cmp_vec(res, expx, name='x')
+        if bad:
+            chk.violation('HERMTOEP:values:%s:%s' % (mode, ename),
+                          'HERMTOEP returns x with T x != z (%s)' % bad, dict(case, observed=res))
+    chk.replayed += 1
+    chk.count('hermtoep-' + mode, 'replayed')
+    if len(st['A']) >= 2:
+        chk.sample('hermtoep-' + mode, {'r': st['r'], 'z': st['z'], 'x': st['x']}, 1)
+
+
+def part_hermtoep(chk, cplx, order, r0set, parts, zparts):
+    cfg = tlc._cfg_text(spec='TSpec', constants={'MaxOrder': order, 'R0Set': set(r0set), 'Parts': '<- ' + parts,
+                                                 'ZParts': '<- ' + zparts, 'Complex': cplx},
+                        invariants=['Solves', 'ToeplitzEquation'])
+    return {'module': 'MC_Toeplitz', 'cfg': cfg, 'part': 'hermtoep-' + ('complex' if cplx else 'real'),
+            'replay': lambda st: replay_hermtoep(chk, st, cplx)}
+
+
+# ---------------------------------------------------------------- TOEPLITZ
+def _lex_positive(p):
+    re, im = M.cq(p)
+    return re > 0
+
+
+def replay_toeplitz(chk, st, cplx):
+    from spectrum.toeplitz import TOEPLITZ
+    if len(st['A']) == 0 or st['status'] == 'ovf':
+        chk.skip('toeplitz-order0-or-ovf')
+        return
+    mode = 'complex' if cplx else 'real'
+    # admissible for the routine: every pivot has a (clearly) positive real part
+    admissible = st['status'] == 'ok' and all(_lex_positive(p) for p in st['pivots'])
+    clearly_refusable = any(M.cq(p)[0] < 0 for p in st['pivots'])
+    t0 = float(M.rat(st['t0'][0]))
+    for ename, fc in (('native', False), ('complex-dtype', True)):
+        if cplx and fc:
+            continue
+        TC = _arr(st['tc'], cplx, fc)
+        TR = _arr(st['tr'], cplx, fc)
+        Z = _arr(st['z'], cplx, fc)
+        T0 = complex(t0) if (cplx or fc) else t0
+        case = {'kernel': 'TOEPLITZ', 'T0': t0, 'TC': TC, 'TR': TR, 'Z': Z, 'complex': cplx,
+                'pivots': [M.cq(p) for p in st['pivots']]}
+        ok, res = call_guard(TOEPLITZ, T0, TC, TR, Z)
+        chk.evaluations += 1
+        if not ok:
+            if admissible:
+                chk.violation('TOEPLITZ:raise-on-admissible:%s:%s' % (mode, ename),
+                              'TOEPLITZ rejects a system whose pivots are all positive: %r' % (res,), case)
+            else:
+                chk.count('toeplitz-' + mode, 'legitimate-refusals')
+            continue
+        if st['status'] != 'ok' or M.has_ovf(st['x']):
+            continue
+        expx = np.array(M.cq_seq(st['x']), dtype=complex)
+        bad = cmp_vec(res, expx, name='x')
+        if bad:
+            chk.violation('TOEPLITZ:values:%s:%s' % (mode, ename),
+                          'TOEPLITZ returns x with T x != z (%s)' % bad, dict(case, observed=res, expect_x=expx))
+    chk.replayed += 1
+    chk.count('toeplitz-' + mode, 'replayed')
+    chk.count('toeplitz-' + mode, 'admissible' if admissible else 'not-admissible')
+    if len(st['A']) >= 2 and admissible:
+        chk.sample('toeplitz-' + mode, {'t0': st['t0'], 'tc': st['tc'], 'tr': st['tr'], 'z': st['z'], 'x': st['x']}, 1)
+
+
+def part_toeplitz(chk, cplx, order, t0set, parts, zparts):
+    cfg = tlc._cfg_text(constants={'MaxOrder': order, 'T0Set': set(t0set), 'Parts': '<- ' + parts,
+                                   'ZParts': '<- ' + zparts, 'Complex': cplx},
+                        invariants=['Solves'])
+    return {'module': 'MC_GenToeplitz', 'cfg': cfg, 'part': 'toeplitz-' + ('complex' if cplx else 'real'),
+            'replay': lambda st: replay_toeplitz(chk, st, cplx)}
+
+
+# ---------------------------------------------------------------- CHOLESKY
+def replay_cholesky(chk, st, cplx, dim):
+    from spectrum import CHOLESKY
+    if st['mat'] == ():
+        return
+    mode = 'complex' if cplx else 'real'
+    A = np.array([M.cq_seq(row) for row in st['mat']], dtype=complex)
+    b = np.array(M.cq_seq(st['rhs']), dtype=complex)
+    nl = dim * (dim + 1) // 2
+    expx = np.array(M.cq_seq(st['pick'][nl:]), dtype=complex)
+    variants = [('complex', A, b)]
+    if not cplx:
+        variants.append(('float', A.real.copy(), b.real.copy()))
+    for method in ('scipy', 'numpy', 'numpy_solver'):
+        for vname, Av, bv in variants:
+            case = {'kernel': 'CHOLESKY', 'A': Av, 'b': bv, 'method': method, 'expect_x': expx}
+            ok, res = call_guard(CHOLESKY, Av.copy(), bv.copy(), method)
+            chk.evaluations += 1
+            if not ok:
+                chk.violation('CHOLESKY:raise-on-pd:%s:%s:%s' % (method, mode, vname),
+                              'CHOLESKY(method=%s) rejects a Hermitian positive-definite system: %r' % (method, res), case)
+                continue
+            bad = cmp_vec(res, expx, name='x', tol=1e-7)
+            if bad:
+                chk.violation('CHOLESKY:values:%s:%s:%s' % (method, mode, vname),
+                              'CHOLESKY(method=%s) returns x with A x != b (%s)' % (method, bad), dict(case, observed=res))
+    chk.replayed += 1
+    chk.count('cholesky-' + mode, 'replayed')
+    chk.sample('cholesky-' + mode, {'A': st['mat'], 'b': st['rhs'], 'x': st['pick'][nl:]}, 1)
+
+
+def part_cholesky(chk, cplx, dim, diag, parts, simulate=None):
+    cfg = tlc._cfg_text(constants={'Dim': dim, 'DiagSet': set(diag), 'Parts': '<- ' + parts, 'Complex': cplx},
+                        invariants=['Hermitian', 'PositiveMinors', 'SolvesSystem'])
+    return {'module': 'MC_Cholesky', 'cfg': cfg, 'part': 'cholesky-' + ('complex' if cplx else 'real'),
+            'replay': lambda st: replay_cholesky(chk, st, cplx, dim)}
+
+
+def jobs(chk):
+    quick = chk.tier == 'quick'
+    js = [part_hermtoep(chk, False, 3, [2, 3], 'PartsQ' if not quick else 'PartsC', 'ZQ'),
+          part_hermtoep(chk, True, 2, [2, 3], 'PartsC', 'ZC'),
+          part_toeplitz(chk, False, 2 if quick else 3, [2, 3], 'PartsS', 'ZQ' if quick else 'ZC'),
+          part_toeplitz(chk, True, 1 if quick else 2, [2], 'PartsS', 'ZC'),
+          part_cholesky(chk, False, 3 if not quick else 2, [1, 2], 'PartsS' if not quick else 'PartsQ'),
+          part_cholesky(chk, True, 2, [1, 2], 'PartsS')]
+    if not quick:
+        js.append(part_cholesky(chk, False, 3, [1, 2, 3], 'PartsQ'))
+    return js
+
+
 def replay_case(chk, sig, case):
-    pass
+    """Re-run one recorded case; the expected value is the one recorded by the spec run."""
+    from spectrum.toeplitz import HERMTOEP, TOEPLITZ
+    from spectrum import CHOLESKY
+
+    def c(v):
+        return np.array([complex(e['re'], e['im']) if isinstance(e, dict) else e for e in v])
+    if sig.startswith('HERMTOEP'):
+        ok, res = call_guard(HERMTOEP, case['T0'], c(case['T']), c(case['Z']))
+    elif sig.startswith('TOEPLITZ'):
+        ok, res = call_guard(TOEPLITZ, case['T0'], c(case['TC']), c(case['TR']), c(case['Z']))
+    else:
+        A = np.array([c(row) for row in case['A']])
+        ok, res = call_guard(CHOLESKY, A, c(case['b']), case['method'])
+    chk.replayed += 1
+    if not ok:
+        if 'raise' in sig:
+            chk.violation(sig, 'still raises: %r' % (res,), case)
+        return
+    if 'expect_x' in case:
+        bad = cmp_vec(res, c(case['expect_x']), name='x', tol=1e-7)
+        if bad:
+            chk.violation(sig, bad, case)
